@@ -109,6 +109,10 @@ func (in *c20Inner) ServeHTTP(w http.ResponseWriter, req *http.Request) {
 		w.Header().Del("Link")
 	}
 	for _, h := range s.Headers {
+		if strings.HasPrefix(h[0], "raw:") { // assigned directly: the name is not canonicalised
+			w.Header()[h[0][4:]] = append(w.Header()[h[0][4:]], h[1])
+			continue
+		}
 		w.Header().Add(h[0], h[1])
 	}
 	if s.Status != 0 {
@@ -271,6 +275,9 @@ func c20Stacks(c *Ctx) {
 		recorderMode := false
 		if mode == "transparent" && script.Kind == "plain" && r.IntN(5) == 0 {
 			recorderMode = true
+			if r.IntN(2) == 0 {
+				script.Headers = append(script.Headers, [2]string{"raw:" + pick(r, []string{"X-API-requestID", "x-lower-case", "Sec-WebSocket-Accept"}), "v"})
+			}
 			if script.Status == 204 || script.Status == 304 {
 				script.Status = 200 // a recorder keeps body bytes that a real server would refuse for these statuses
 			}
